@@ -3,11 +3,17 @@
 (* Trace validation for C01 / C10 (impl -> spec).  A recording holds, per  *)
 (* program: the abstract program that was compiled, one `print` event per  *)
 (* line the compiled program wrote (decimal text converted to the 128-bit  *)
-(* pattern), and its exit status (or `hang`).  TLC runs Machine.tla on the *)
-(* logged program: each logged event must be the next observable event of  *)
-(* the machine.  A program on which the machine meets undefined behaviour  *)
-(* or runs out of fuel is trivial: the rest of its recording is accepted   *)
-(* unexamined and it is reported in a TRIVIAL note.                        *)
+(* pattern), and its exit status (or `hang`, or `crash` when the process   *)
+(* was killed by a signal: its buffered output is lost, so no prints are   *)
+(* logged).  TLC runs Machine.tla on the logged program: each logged event *)
+(* must be the next observable event of the machine.  A program on which   *)
+(* the machine meets undefined behaviour or runs out of fuel is trivial:   *)
+(* the rest of its recording is accepted unexamined and it is reported in  *)
+(* a TRIVIAL note.  A crash is accepted only for such a program.  A        *)
+(* program that the machine cannot run (status "illegal": a write through  *)
+(* a view, to a parameter or to a constant; "stuck": ill-formed) or that   *)
+(* trips one of the machine's monitors (non-interference, stored values    *)
+(* fit their types, goto forward and outward) is rejected.                 *)
 (***************************************************************************)
 EXTENDS Machine, Json, IOUtils, TLCExt
 CONSTANT Fuel
@@ -32,18 +38,24 @@ TProg == /\ Ev("prog") /\ phase = "idle"
          /\ pi' = l /\ phase' = "run" /\ l' = l + 1
 
 TEvent ==
-    /\ phase = "run" /\ l <= Len(Rec) /\ Rec[l].ev \in {"print", "exit", "hang"}
+    /\ phase = "run" /\ l <= Len(Rec) /\ Rec[l].ev \in {"print", "exit", "hang", "crash"}
     /\ LET prog == Rec[pi].p
-           m2 == IF m.status = "run" THEN RunToEvent(prog, m) ELSE m
+           m2 == IF m.status # "run" THEN m
+                 ELSE IF Rec[l].ev = "crash" THEN RunFrom(prog, m)
+                 ELSE RunToEvent(prog, m)
+           last == Rec[l].ev \in {"exit", "hang", "crash"}
        IN CASE m2.status \in {"ub", "fuel"} ->
                  \* trivial program: nothing is required of it
                  /\ (m.status = "run" => PrintT(<<"TRIVIAL", ToJson([line |-> pi, why |-> m2.status])>>))
-                 /\ m' = [status |-> m2.status]
-                 /\ phase' = (IF Rec[l].ev \in {"exit", "hang"} THEN "idle" ELSE "run")
-            [] m2.status = "run" ->
+                 /\ m' = IF last THEN Idle ELSE [status |-> m2.status]
+                 /\ phase' = (IF last THEN "idle" ELSE "run")
+            [] m2.status \in {"illegal", "stuck"} \/ (m2.status \in {"run", "done"} /\ m2.bad # <<>>) ->
+                 /\ PrintT(<<"MONITOR", ToJson([line |-> pi, status |-> m2.status, bad |-> m2.bad])>>)
+                 /\ FALSE
+            [] m2.status \in {"run", "done"} /\ Len(m2.out) > 0 ->
                  /\ Rec[l].ev = "print" /\ Shown(m2.out[1]) = Rec[l].v
-                 /\ m' = [m2 EXCEPT !.out = <<>>] /\ phase' = "run"
-            [] m2.status = "done" ->
+                 /\ m' = [m2 EXCEPT !.out = Tail(@)] /\ phase' = "run"
+            [] m2.status = "done" /\ Len(m2.out) = 0 ->
                  /\ Rec[l].ev = "exit" /\ Rec[l].code = m2.exit[1]
                  /\ m' = Idle /\ phase' = "idle"
     /\ l' = l + 1 /\ pi' = pi
